@@ -753,6 +753,14 @@ class VarsManager(object):
                     self.variables[name_r[:-1] + "i"].assign_add(np.pi)
             else:
                 p.assign_add(np.pi)
+                # complex variables sharing this radius (set_share_r) keep their values
+                for grp in self.same_list:
+                    if name + "r" not in grp:
+                        continue
+                    for other in grp:
+                        p2 = self.variables.get(other[:-1] + "i", None)
+                        if other != name + "r" and p2 is not None and p2 is not p:
+                            p2.assign(self._std_polar_angle(p2 + np.pi))
         p.assign(self._std_polar_angle(p))
 
     def std_polar_all(self):  # std polar expression: r>0, -pi<p<pi
